@@ -2,6 +2,6 @@
 import sys
 from harness import core
 
-r = core.run_driver([{"op": "oneof", "calls": [{"key": "a", "alts": "vv", "perm": [1, 0]}]}])
+r = core.run_driver([{"op": "oneof", "calls": [{"key": "a", "alts": "vv", "perm": [1, 0]}]}], "drv_oneof")
 assert r == [{"res": [[0, []]]}], r
 print("driver ok")
